@@ -280,4 +280,6 @@ def run(chk, ctx):
     r1(chk, ctx)
     r2_r3(chk, ctx)
     r4(chk, ctx)
+    from . import round4
+    round4.parse_arn_fresh(chk, ctx)
     chk.assume("names carried in context['Execution']['Name'] were validated by the API or generated by uuid4")
